@@ -416,6 +416,7 @@ func c10Spaces(tier string) []*explore.Space {
 	// number spellings and operator names next to brackets and operators
 	g2 = append(g2, "5. + 2", "5. div 2", "5. - .5", "(5.) + 2", "a[2.]", "a[5. = 5]", ".5 * 5.", "5. | a", "count(a) + 5.", "5.5 mod 2.", "1 div (2)", "a and (b)", "a or (b)", "7 mod (2)", "a div (b) div (c)",
 		"(a) and (b)", "(a) div (b)", "a[b and (c)]", "a[1 div (1)]", "not(a) or (b)", "a and (b) or (c)", "* div (2)", "* and (*)", "@a or (@b)", "$x div ($x)", "'a' and ('b')", "a/b mod (2)", "a[1] div (2)", "and and (and)", "div div (div)",
+		"a-1", "a-1-1", "a-b", "a.b", "a.1", "a._b", "a_b", "_a", "a-", "a.", "a-1 - 1", "a-1 -1", "a - 1", "a -1", "a.b/c.d", "@a-1", "@a.b", "p:a-1", "p.q:a", "p-1:a.b", "a.b[c-d]", "a-b - c-d", "a.b * c.d", "count(a-1)", "a-1 div a.b", "a.b.c", "a-1[1]", "a1", "a1b2",
 		"(a)[1][2]", "(a)[b][c]", "(a)[b][1]/c", "count((a)[b][c])", "d[(a)[b][c]]", "(a | b)[c][d][e]", "$x[a][b]", "count(a)[1][1]")
 	forms := stepForms(allTests, true)
 	for _, p := range pathsN(forms, 1) {
